@@ -76,7 +76,7 @@ def Mods.ofList : List (E × Int × E × Bool) → Mods
 def mkSlice (x : E) (pos size : Nat) : E :=
   if pos = 0 ∧ size = x.size then x
   else match x with
-    | .cst v _ => .cst ((v >>> pos) % 2 ^ size) size
+    | .cst v sz => .cst (((v % 2 ^ sz) >>> pos) % 2 ^ size) size
     | _ => .slc x pos size
 
 def mkCat (lo hi : E) : E :=
@@ -237,18 +237,19 @@ def Entry.otherBase (base : E) (e : Entry) : Bool :=
   | .ptr b _ => b != base
   | .reg .. => false
 
+/-- where `aliasing(k)` starts scanning (`K[i+1:n]`): after the item of this very location if it is at least
+    as wide as the read, else from the start. -/
+def aliasStart (m : MapSt) (base : E) (disp : Int) (size : Nat) : Nat :=
+  match m.entries.findIdx? (fun e => e.loc = .ptr base disp) with
+  | some i => if (m.entries.getD i default).val.size < size then 0 else i + 1
+  | none => 0
+
 /-- `aliasing(k)` for `k = mem(ptr(base, disp), size)`: 0, or `lastw` when a write through another base
     follows the last covering write to this very location. -/
 def aliasing (cfg : Cfg) (m : MapSt) (base : E) (disp : Int) (size : Nat) : Nat :=
   if cfg.noaliasing then 0
-  else
-    let K := m.entries
-    let n := m.lastw
-    let start : Nat :=
-      match K.findIdx? (fun e => e.loc = .ptr base disp) with
-      | some i => if (K.getD i default).val.size < size then 0 else i + 1
-      | none => 0
-    if ((K.take n).drop start).any (Entry.otherBase base) then n else 0
+  else if ((m.entries.take m.lastw).drop (aliasStart m base disp size)).any (Entry.otherBase base) then m.lastw
+  else 0
 
 def modsOf : List Entry → Mods
   | [] => .nil
@@ -267,7 +268,7 @@ def MapSt.M (cfg : Cfg) (m : MapSt) (base : E) (disp : Int) (size : Nat) (be : B
     is stored as its bytes). -/
 def toVal (w : Nat) (v : E) (n : Nat) : Val :=
   match v with
-  | .cst c _ => .ex ((List.range n).map (fun k => ByteDesc.raw ((c >>> (8 * k)) % 256)))
+  | .cst c s => .ex ((List.range n).map (fun k => ByteDesc.raw (((c % 2 ^ s) >>> (8 * k)) % 256)))
   | _ => .ex ((List.range n).map (fun k => ByteDesc.sym w k))
 
 /-- `_Mem_write(ptr(base, disp), v, endian)`: write into the zone, drop the location from the map. -/
@@ -338,7 +339,9 @@ def eval (cfg : Cfg) (m : MapSt) : E → E
   | .load b d s be ms =>
       -- `mem.eval`: address, copy of the environment, replay of the mods, read
       let a := mkPtr (eval cfg m b) d
-      let m' := (evalMods cfg m ms).foldl (fun acc w => acc.setPtr cfg w.1 w.2.1 w.2.2.1 w.2.2.2) (m.rebuild cfg)
+      -- `env(loc)`, `env(v)` go through `__call__`, which returns its argument on an untouched map
+      let ws := if m.entries.isEmpty && m.memEmpty then ms.toList else evalMods cfg m ms
+      let m' := ws.foldl (fun acc w => acc.setPtr cfg w.1 w.2.1 w.2.2.1 w.2.2.2) (m.rebuild cfg)
       m'.M cfg a.1 a.2 s be
 /-- the mods with location and value evaluated in `m` -/
 def evalMods (cfg : Cfg) (m : MapSt) : Mods → List (E × Int × E × Bool)
@@ -357,7 +360,7 @@ def rcompose (cfg : Cfg) (m2 m1 : MapSt) : MapSt :=
   m2.entries.foldl (fun acc e =>
       match e.loc with
       | .ptr b d =>
-        let a := mkPtr (eval cfg m1 b) d
+        let a := if m1.entries.isEmpty && m1.memEmpty then (b, d) else mkPtr (eval cfg m1 b) d
         acc.setPtr cfg a.1 a.2 (m1.call cfg e.val) e.be
       | .reg n s => acc.setReg n s 0 s (m1.call cfg e.val))
     (m1.rebuild cfg)
@@ -418,6 +421,43 @@ def Stmt.wf : Stmt → Bool
   | .store b _ size e => b.wf && e.wf && decide (e.size = size) && decide (0 < size) && decide (size % 8 = 0)
 
 def Prog.wf (p : Prog) : Bool := p.stmts.all Stmt.wf
+
+/-- no load inside -/
+def X.loadFree : X → Bool
+  | .cst _ _ => true
+  | .reg _ _ => true
+  | .slc x _ _ => x.loadFree
+  | .cat lo hi => lo.loadFree && hi.loadFree
+  | .addc x _ => x.loadFree
+  | .op _ l r _ => l.loadFree && r.loadFree
+  | .load _ _ _ => false
+
+/-- a statement over registers and sub-register slices only -/
+def Stmt.regsOnly : Stmt → Bool
+  | .set _ _ _ _ e => e.loadFree
+  | .store .. => false
+
+def Prog.regsOnly (p : Prog) : Bool := p.stmts.all Stmt.regsOnly
+
+/-- every address is a constant plus displacement -/
+def X.concOnly : X → Bool
+  | .cst _ _ => true
+  | .reg _ _ => true
+  | .slc x _ _ => x.concOnly
+  | .cat lo hi => lo.concOnly && hi.concOnly
+  | .addc x _ => x.concOnly
+  | .op _ l r _ => l.concOnly && r.concOnly
+  | .load b _ _ => match b with
+    | .cst _ _ => true
+    | _ => false
+
+def Stmt.concOnly : Stmt → Bool
+  | .set _ _ _ _ e => e.concOnly
+  | .store b _ _ e => e.concOnly && match b with
+    | .cst _ _ => true
+    | _ => false
+
+def Prog.concOnly (p : Prog) : Bool := p.stmts.all Stmt.concOnly
 
 /-- one statement on the symbolic map: `v = m(e); m[loc] = v` -/
 def symStep (cfg : Cfg) (be : Bool) (m : MapSt) : Stmt → MapSt
@@ -495,7 +535,10 @@ def loadsOf (cfg : Cfg) (m : MapSt) : E → List Access
       loadsOf cfg m b ++ loadsOfMods cfg m ms ++ [⟨a.1, a.2, s / 8⟩]
 def loadsOfMods (cfg : Cfg) (m : MapSt) : Mods → List Access
   | .nil => []
-  | .cons b _ v _ rest => loadsOf cfg m b ++ loadsOf cfg m v ++ loadsOfMods cfg m rest
+  | .cons b d v _ rest =>
+      -- the replayed store itself is an access too (`env(loc)` is `loc` itself on an untouched map)
+      let a := if m.entries.isEmpty && m.memEmpty then (b, d) else mkPtr (eval cfg m b) d
+      loadsOf cfg m b ++ loadsOf cfg m v ++ [⟨a.1, a.2, v.size / 8⟩] ++ loadsOfMods cfg m rest
 end
 
 def stmtAccesses (cfg : Cfg) (be : Bool) (m : MapSt) : Stmt → List Access
@@ -508,6 +551,45 @@ def stmtAccesses (cfg : Cfg) (be : Bool) (m : MapSt) : Stmt → List Access
 def progAccesses (cfg : Cfg) (be : Bool) : MapSt → List Stmt → List Access
   | _, [] => []
   | m, s :: rest => stmtAccesses cfg be m s ++ progAccesses cfg be (symStep cfg be m s) rest
+
+/-- the accesses of `m1 >> m2` (`rcompose cfg m2 m1`): the loads of `m2`'s pointers and values evaluated in
+    `m1`, and the stores of `m2`'s pointer items -/
+def rcomposeAccesses (cfg : Cfg) (m2 m1 : MapSt) : List Access :=
+  m2.entries.flatMap (fun e =>
+    match e.loc with
+    | .ptr b d =>
+      let a := if m1.entries.isEmpty && m1.memEmpty then (b, d) else mkPtr (eval cfg m1 b) d
+      loadsOf cfg m1 b ++ loadsOf cfg m1 e.val ++ [⟨a.1, a.2, e.val.size / 8⟩]
+    | .reg _ _ => loadsOf cfg m1 e.val)
+
+mutual
+/-- whole-byte loads and mods in the byte order `be0` -/
+def E.ok (be0 : Bool) : E → Bool
+  | .cst .. => true
+  | .reg .. => true
+  | .slc x _ _ => x.ok be0
+  | .cat lo hi => lo.ok be0 && hi.ok be0
+  | .addc x _ => x.ok be0
+  | .op _ l r _ => l.ok be0 && r.ok be0
+  | .load b _ s be ms =>
+      b.ok be0 && decide (0 < s / 8) && decide (8 * (s / 8) = s) && (be == be0) && ms.ok be0
+def Mods.ok (be0 : Bool) : Mods → Bool
+  | .nil => true
+  | .cons b _ v be rest =>
+      b.ok be0 && v.ok be0 && decide (0 < v.size / 8) && decide (8 * (v.size / 8) = v.size) && (be == be0)
+        && rest.ok be0
+end
+
+/-- a well-formed map (what `symExec` produces): distinct locations; a register item holds a value of the
+    register's width; a pointer item a whole number of bytes in the byte order `be0`; every expression `ok` -/
+def MapSt.ok (be0 : Bool) (m : MapSt) : Bool :=
+  decide (m.entries.map Entry.loc).Nodup &&
+  m.entries.all (fun e =>
+    e.val.ok be0 &&
+    match e.loc with
+    | .reg _ s => decide (e.val.size = s)
+    | .ptr b _ => b.ok be0 && decide (0 < e.val.size / 8) && decide (8 * (e.val.size / 8) = e.val.size)
+                    && (e.be == be0))
 
 /-- value of the zone base under `σ` (0 for the zone of concrete addresses) -/
 def zbase (sem : OpSem) (σ : St) : ZK → Int
